@@ -151,6 +151,7 @@ class FastChecker:
         self.rng = KeyTheory.domain_ranges(domain)
         self.solver = z3.Solver()
         self.vars = {}
+        self.lits = {}
         self.checks = 0
 
     def var(self, n):
@@ -161,12 +162,18 @@ class FastChecker:
             self.solver.add(z3.Or([z3.And(v >= lo, v <= hi) for lo, hi in self.rng]))
         return v
 
-    def sat(self, trace):
-        lits = []
-        for a, b, d in trace:
+    def lit(self, a, b, d):
+        k = (a, b, d)
+        t = self.lits.get(k)
+        if t is None:
             x = self.var(a) if isinstance(a, str) else z3.IntVal(a)
             y = self.var(b) if isinstance(b, str) else z3.IntVal(b)
-            lits.append(x == y if d else x != y)
+            t = (x == y) if d else (x != y)
+            self.lits[k] = t
+        return t
+
+    def sat(self, trace):
+        lits = [self.lit(a, b, d) for a, b, d in trace]
         self.solver.push()
         try:
             self.solver.add(*lits)
